@@ -28,6 +28,7 @@ CACHE = os.path.join(VERIF, ".cache")
 sys.path.insert(0, os.path.join(VERIF, "tools"))
 from registry import PROPS, TRUSTED_BASE  # noqa: E402
 
+CRASH = []  # go test runs that died without writing a result (filled by step_harness_one)
 ALLOWED_AXIOMS = {"propext", "Classical.choice", "Quot.sound"}
 GOENV = dict(os.environ, GOFLAGS="-mod=mod", GOPROXY="off", GOSUMDB="off", GOTOOLCHAIN="local",
              CGO_ENABLED=os.environ.get("CGO_ENABLED", "1"))
@@ -226,7 +227,10 @@ def step_harness_one(spec, h, tier, seed, log, race=False, extra_env=None):
             log.append(f"harness result unreadable: {e}")
         os.remove(outp)
     if res is None:
-        log.append("harness did not produce a result (build failure or crash):\n" + "\n".join(out.splitlines()[-40:]))
+        tail = "\n".join(out.splitlines()[-60:])
+        log.append("harness did not produce a result (build failure or crash):\n" + tail)
+        CRASH.append({"test": h["test"], "pkg": h["pkg"], "output_tail": tail,
+                      "panic": "panic:" in out or "fatal error:" in out, "timeout": "test timed out" in out})
         return None
     res["go_test_rc"] = rc
     res["go_test_tail"] = "\n".join(out.splitlines()[-15:])
@@ -301,6 +305,23 @@ def check(prop, tier):
     oracle_fails = [f for f in findings if f["kind"] == "oracle"]
     corr_fails = [f for f in findings if f["kind"] == "correspondence"]
 
+    # the process under test died with a panic: re-run serially with a journal to attribute the crash
+    crash_history = None
+    if not harness_ok and any(c["panic"] for c in CRASH) and os.path.exists(drv):
+        jpath = os.path.join(CACHE, f"journal_{prop}_{os.getpid()}.txt")
+        if os.path.exists(jpath):
+            os.remove(jpath)
+        n0 = len(CRASH)
+        step_harness(spec, tier, seed, log, extra_env={"VERIF_SERIAL": "1", "VERIF_JOURNAL": jpath})
+        if len(CRASH) > n0 and os.path.exists(jpath):
+            lines = open(jpath, errors="replace").read().splitlines()
+            if lines:
+                inst = lines[-1].split(":")[0]
+                crash_history = {"history_until_crash": [l for l in lines if l.startswith(inst + ":")][-60:],
+                                 "panic": CRASH[-1]["output_tail"][-3000:]}
+        if os.path.exists(jpath):
+            os.remove(jpath)
+
     # search step when the proof/tie/correspondence side is broken but no oracle failure yet
     widened = None
     if (not proofs_ok or corr_fails or not harness_ok) and not oracle_fails and tier == "quick" and os.path.exists(drv):
@@ -333,6 +354,15 @@ def check(prop, tier):
         path = write_replay(prop, n, {"property": prop, "kind": "failing-input", "finding": f, "treehash": th,
                                       "how_to_replay": f"python3 run.py {prop} replay <this file>"})
         violations.append((path, ""))
+    if not violations and crash_history:
+        n += 1
+        path = write_replay(prop, n, {"property": prop, "kind": "failing-input",
+                                      "finding": {"kind": "oracle", "key": "process-under-test-panics",
+                                                  "case": "\n".join(crash_history["history_until_crash"]),
+                                                  "real": crash_history["panic"],
+                                                  "detail": "the real code panicked while serving this request history (serial re-run of the harness with a journal)"},
+                                      "treehash": th})
+        violations.append((path, ""))
     if not violations:
         broken = []
         if not ok_extract:
@@ -342,7 +372,10 @@ def check(prop, tier):
         broken += failed_obl
         broken += ["forbidden construct: " + g for g in greps]
         if not harness_ok:
-            broken.append("harness did not run (the implementation no longer builds with the harness, or it crashed)")
+            broken.append("harness did not run to completion (the implementation no longer builds with the harness, panicked under it, or hung)")
+            for c in CRASH:
+                kind = "panic in the process under test" if c["panic"] else ("hang: go test timed out" if c["timeout"] else "build failure or crash")
+                broken.append(f"{c['pkg']} {c['test']}: {kind}\n{c['output_tail'][-3000:]}")
         for f in corr_fails[:5]:
             broken.append(f"correspondence {f['key']}: case {f['case'][:300]} real={f['real'][:200]} model={f['model'][:200]}")
         if broken:
